@@ -530,6 +530,18 @@ int main(int argc, char** argv)
         }
     }
 
+    /* All maps and output buffers are set up for GridSize mesh points per
+     * dimension: a loaded distribution of a different size cannot be used.
+     */
+    if (PhaseSpace::nx != ps_bins) {
+        sstream.str("");
+        sstream << "Initial distribution has " << PhaseSpace::nx
+                << " mesh points per dimension, but GridSize is " << ps_bins
+                << ". Will now quit.";
+        Display::printText(sstream.str());
+        return EXIT_SUCCESS;
+    }
+
     VERIF_IP("setup:after_grid");
     // an initial renormalization might be applied
     if (renormalize >= 0) {
